@@ -74,3 +74,13 @@ pub fn all() -> Vec<&'static CheckDef> {
     vec![&smoke::DEF, &c01::DEF, &c02::DEF, &c03::DEF, &c04::DEF, &c05::DEF, &c06::DEF, &c07::DEF, &c08::DEF, &c09::DEF, &c10::DEF, &c11::DEF, &c12::DEF, &c13::DEF, &c14::DEF, &c15::DEF, &c16::DEF, &c17::DEF, &c18::DEF, &c19::DEF, &c20::DEF]
 }
 pub fn find(id: &str) -> Option<&'static CheckDef> { all().into_iter().find(|d| d.id.eq_ignore_ascii_case(id)) }
+
+/// A transient outcome of one of the server's next reads / writes on a random client's socket.
+pub fn transient_fault(r: &mut crate::scenario::Rng, nc: usize) -> crate::scenario::Step {
+    use crate::scenario::Step;
+    let fop = if r.chance(1, 2) { crate::world::Op::Recv } else { crate::world::Op::Send };
+    // (a write that comes back empty-handed would defer the reply to a later turn; the multi-client executor takes the
+    // arrival of a reply as the moment its command ran, so on the write side only outcomes the server retries at once)
+    let action = match r.below(4) { 0 => crate::world::Action::Errno(libc::EINTR), 1 => if matches!(fop, crate::world::Op::Recv) { crate::world::Action::Errno(libc::EAGAIN) } else { crate::world::Action::Short(3) }, 2 => crate::world::Action::Short(1), _ => crate::world::Action::Short(*r.pick(&[2usize, 7, 100])) };
+    Step::Arm { fop, conn: Some(r.below(nc as u64) as usize), class: None, nth: r.below(3), action, inst: 0 }
+}
